@@ -136,6 +136,71 @@ class LibraryDidNotTerminate(Exception):
     on a concrete input becomes an exception the sweep records like any other wrong outcome, instead of hanging the check."""
 
 
+def describe_call(name, args, kwargs):
+    """A replayable description of a call into the library (for a call that did not return)."""
+    import bs4
+    d = {'function': name, 'args': [], 'kwargs': {}}
+
+    def one(x):
+        if isinstance(x, bs4.Tag):
+            top = x
+            while top.parent is not None:
+                top = top.parent
+            path, n = [], x
+            while n.parent is not None:
+                path.append(n.parent.contents.index(n) if any(c is n for c in n.parent.contents) else -1)
+                n = n.parent
+            return {'tag': True, 'is_document': isinstance(top, bs4.BeautifulSoup), 'is_xml': bool(getattr(top, 'is_xml', False)),
+                    'markup': top.decode()[:200000], 'path': path[::-1]}
+        if hasattr(x, 'pattern') and hasattr(x, 'selectors'):
+            return {'compiled': True, 'pattern': x.pattern, 'namespaces': dict(x.namespaces or {}), 'custom': dict(x.custom or {}),
+                    'flags': int(x.flags)}
+        if isinstance(x, (str, int, float, bool, type(None))):
+            return x
+        if isinstance(x, dict):
+            return {str(k): one(v) for k, v in x.items()}
+        return repr(x)[:500]
+    try:
+        d['args'] = [one(x) for x in args]
+        d['kwargs'] = {k: one(v) for k, v in kwargs.items()}
+    except Exception as e:      # noqa: BLE001
+        d['describe_error'] = repr(e)
+    return d
+
+
+def replay_call(call, limit_s=20):
+    """Re-run a described call under the watchdog; True when it returns (or raises an ordinary exception) within the limit."""
+    import bs4
+    import soupsieve as sv
+
+    def back(x):
+        if isinstance(x, dict) and x.get('tag'):
+            soup = bs4.BeautifulSoup(x['markup'], 'xml' if x.get('is_xml') else 'html.parser')
+            n = soup
+            for i in x.get('path', []):
+                if i < 0 or i >= len(n.contents):
+                    break
+                n = n.contents[i]
+            return n if isinstance(n, bs4.Tag) else soup
+        if isinstance(x, dict) and x.get('compiled'):
+            return sv.compile(x['pattern'], x['namespaces'] or None, x['flags'], custom=x['custom'] or None)
+        return x
+    fn = getattr(sv, call['function'], None)
+    args = [back(x) for x in call.get('args', [])]
+    if args and hasattr(args[0], 'selectors') and hasattr(args[0], call['function']):
+        fn = getattr(args[0], call['function'])
+        args = args[1:]
+    try:
+        r = fn(*args, **{k: back(v) for k, v in call.get('kwargs', {}).items()})
+        if hasattr(r, '__next__'):
+            list(r)
+        return True
+    except LibraryDidNotTerminate:
+        return False
+    except Exception:       # noqa: BLE001
+        return True
+
+
 def install_watchdog(limit_s):
     """Wrap the public entry points of soupsieve (module functions and SoupSieve methods) with a SIGALRM watchdog.  Main thread
     only (signals are delivered there); nested calls share the outer timer; the previous SIGALRM handler is restored after
@@ -164,6 +229,11 @@ def install_watchdog(limit_s):
                     r = list(r)          # iselect: run the generator under the timer
                     return iter(r)
                 return r
+            except LibraryDidNotTerminate as e:
+                signal.setitimer(signal.ITIMER_REAL, 0)
+                if not hasattr(e, 'call'):
+                    e.call = describe_call(fn.__name__, a, k)
+                raise
             finally:
                 signal.setitimer(signal.ITIMER_REAL, 0)
                 signal.signal(signal.SIGALRM, old)
